@@ -5,12 +5,16 @@ RECURSIVE GCD(_, _)
 GCD(a, b) == IF b = 0 THEN (IF a < 0 THEN -a ELSE a) ELSE GCD(b, a % b)
 Norm(n, d) == LET s == IF d < 0 THEN -1 ELSE 1  g == GCD(IF n < 0 THEN -n ELSE n, IF d < 0 THEN -d ELSE d)
               IN IF g = 0 THEN <<0, 1>> ELSE <<(s * n) \div g, (s * d) \div g>>
-RAdd(p, q) == Norm(p[1] * q[2] + q[1] * p[2], p[2] * q[2])
-RSub(p, q) == Norm(p[1] * q[2] - q[1] * p[2], p[2] * q[2])
-RMul(p, q) == Norm(p[1] * q[1], p[2] * q[2])
-RDiv(p, q) == Norm(p[1] * q[2], p[2] * q[1])
-RLe(p, q) == p[1] * q[2] <= q[1] * p[2]
-RLt(p, q) == p[1] * q[2] < q[1] * p[2]
+(* operands are cancelled BEFORE multiplying (TLC integers are 32 bit and overflow is an error, never a wrong value) *)
+AbsI(a) == IF a < 0 THEN -a ELSE a
+RAdd(p, q) == LET g == GCD(p[2], q[2]) IN Norm(p[1] * (q[2] \div g) + q[1] * (p[2] \div g), (p[2] \div g) * q[2])
+RSub(p, q) == LET g == GCD(p[2], q[2]) IN Norm(p[1] * (q[2] \div g) - q[1] * (p[2] \div g), (p[2] \div g) * q[2])
+RMul(p, q) == LET g1 == GCD(AbsI(p[1]), q[2])  g2 == GCD(AbsI(q[1]), p[2])
+                  a == IF g1 = 0 THEN 1 ELSE g1      b == IF g2 = 0 THEN 1 ELSE g2
+              IN Norm((p[1] \div a) * (q[1] \div b), (p[2] \div b) * (q[2] \div a))
+RDiv(p, q) == RMul(p, IF q[1] < 0 THEN <<-q[2], -q[1]>> ELSE <<q[2], q[1]>>)
+RLe(p, q) == LET g == GCD(p[2], q[2]) IN p[1] * (q[2] \div g) <= q[1] * (p[2] \div g)
+RLt(p, q) == LET g == GCD(p[2], q[2]) IN p[1] * (q[2] \div g) < q[1] * (p[2] \div g)
 RInt(n) == <<n, 1>>
 RFloor(p) == p[1] \div p[2]          \* TLC's \div floors
 RCeil(p) == -((-p[1]) \div p[2])
